@@ -704,8 +704,14 @@ impl World {
                     Spec::Retain(bits) => {
                         let mut k = 0usize;
                         let s2 = sched.clone();
+                        let p2 = pool.clone();
                         let r = pool.retain(|obj, m| {
                             let keep = bits.get(k).copied().unwrap_or(true);
+                            // the predicate runs under the slots mutex (the model's retain is
+                            // one atomic step): a try_lock from here must fail
+                            if p2.verif_snapshot(|_, _| {}).slots.is_some() {
+                                s2.event(format!("atomicity({},retain)", i));
+                            }
                             s2.event(format!(
                                 "pred({},{},{},{})",
                                 i,
@@ -763,7 +769,15 @@ impl World {
                 *i
             }
         };
-        Ok(self.obs(i))
+        let obs = self.obs(i);
+        if obs.contains("atomicity(") {
+            // kept in the trace as the last line before the error
+            return Err(format!(
+                "ATOMICITY: retain() ran its predicate while the slots mutex was free - idle objects are invisible to a concurrent get() although their slots are free (max_size can be exceeded): {}",
+                obs
+            ));
+        }
+        Ok(obs)
     }
 
     pub fn obs(&self, i: usize) -> String {
